@@ -449,7 +449,7 @@ impl LdapConnAsync {
                 if path.is_empty() {
                     return Err(LdapError::EmptyUnixPath);
                 }
-                if path.contains(':') {
+                if path.contains(':') || url.port().is_some() {
                     return Err(LdapError::PortInUnixPath);
                 }
                 let dec_path = percent_decode(path.as_bytes()).decode_utf8_lossy();
